@@ -189,19 +189,30 @@ fn run1<T: Flt>(src: &mut Src, obs: &mut Obs) -> Result<(), Fail> {
     } else {
         let qd = src.pick(&[QDim::S0, QDim::S1, QDim::S1, QDim::S2, QDim::S3, QDim::S4, QDim::Dyn]);
         let rank = qd.static_rank().unwrap_or_else(|| src.usize_in(0, 3));
-        let shape = qshape(src, rank);
+        let mut shape = qshape(src, rank);
+        // rank-1 batches: in 1 of 10 the query starts with the complete axis (evaluation at the knots plus extra points)
+        let axis_prefix = rank == 1 && src.chance(1, 10);
+        if axis_prefix {
+            shape = vec![c.n + src.usize_in(1, 3)];
+            obs.class("batch:axis-prefix");
+        }
         let len = product(&shape);
         obs.class(format!("qdim:{}", qd.name()));
         let mut qs: Vec<T> = Vec::with_capacity(len);
-        for _ in 0..len {
+        for k in 0..len {
+            if axis_prefix && k < c.n {
+                qs.push(T::of(c.x[k]));
+                continue;
+            }
             let cls = src.pick(&RQ::GOOD);
             special |= cls.special();
             qs.push(make_q::<T>(src, &c.x, cls));
         }
         let nbad = if len == 0 { 0 } else { [0usize, 1, 1, 1, 2, 3][src.below(6) as usize].min(len) };
         for b in 0..nbad {
-            // first, last, or any position
+            // first, last, or any position (behind the axis when the query starts with it)
             let pos = match src.below(4) {
+                _ if axis_prefix => c.n + src.below((len - c.n) as u64) as usize,
                 0 => 0,
                 1 => len - 1,
                 _ => src.below(len as u64) as usize,
